@@ -263,13 +263,14 @@ class _ReadSourceGenerator:
             read_type += ".type"
             field_type = field_type.type
 
+        value_type = "_t"
         if issubclass(field_type, Char):
-            field_type = field_type.cs.uint8
-            lookup = "cls.cs.uint8"
+            # The bits of a char are returned as an integer, but are still read as a char storage unit
+            value_type = "cls.cs.uint8"
 
         template = f"""
         _t = {lookup}
-        r["{field._name}"] = type.__call__(_t, bit_reader.read({read_type}, {field.bits}))
+        r["{field._name}"] = type.__call__({value_type}, bit_reader.read({read_type}, {field.bits}))
         """
 
         yield dedent(template)
